@@ -280,6 +280,20 @@ pub fn holds_for_access(x: usize, write: bool) -> bool {
 	})
 }
 
+/// The protected datum: a `u64` whose `Debug` impl reports the read (lock found by address).
+pub struct Val(pub u64);
+impl std::fmt::Debug for Val {
+	fn fmt(&self, f: &mut std::fmt::Formatter<'_>) -> std::fmt::Result {
+		let addr = self as *const _ as usize;
+		let x = CTRL.with(|c| c.borrow().ranges.iter().find(|r| r.0 <= addr && addr < r.1).map(|r| r.2));
+		if let Some(x) = x {
+			let bad = !holds_for_access(x, false);
+			log(format!("r{x}={}{}", self.0, if bad { "?" } else { "" }));
+		}
+		write!(f, "{}", self.0)
+	}
+}
+
 pub struct VMutex {
 	_pad: u8,
 }
